@@ -807,8 +807,24 @@ func (c *Chain) genMessage(t *rapid.T, sender int) (*shmsg.Message, string) {
 			gs = append(gs, g2points[j])
 			tags = append(tags, j)
 		}
+		resplit := ""
+		if len(gs) > 0 && rapid.IntRange(0, 5).Draw(t, "regroup") == 0 {
+			// the same bytes cut into list elements at other places: every element must be one point
+			all := bytes.Join(gs, nil)
+			switch resplit = rapid.SampledFrom([]string{"split", "merge", "empty-element", "shifted"}).Draw(t, "regroupKind"); resplit {
+			case "split":
+				gs = append([][]byte{all[:48], all[48:96]}, gs[1:]...)
+			case "merge":
+				gs = [][]byte{all}
+			case "empty-element":
+				gs = append(gs, []byte{})
+			case "shifted":
+				cut := rapid.IntRange(1, len(all)-1).Draw(t, "regroupCut")
+				gs = [][]byte{all[:cut], all[cut:]}
+			}
+		}
 		m := &shmsg.Message{Payload: &shmsg.Message_PolyCommitment{PolyCommitment: &shmsg.PolyCommitment{Eon: eon, Gammas: gs}}}
-		return m, fmt.Sprintf("commit(%d,%v)", eon, tags)
+		return m, fmt.Sprintf("commit(%d,%v%s)", eon, tags, resplit)
 	case "acc":
 		eon := pickEon(t, c)
 		rs := genSubset(t, "accd", 0)
